@@ -1,13 +1,15 @@
 from .. import facts
 from ..common import Report, finish
-from ..rules import c11, c11c, capguard, widenlate
+from ..rules import c11, c11c, capguard, widenlate, docpanic
 
 RULE = ("(a) no explicit panic (core::panicking, Option/Result/CtOption/ConstCtOption unwrap/expect) reachable from a "
         "public operation that reports failure through its return type or is named checked_/overflowing_/"
         "saturating_/wrapping_/try_ is guarded by a condition that depends on the operation's argument values "
         "(NonZero/Odd parameters and operand widths excepted), unless reviewed; (b) copies of parameter-derived "
         "slices inside fallible functions are dominated by an error-exit guard comparing both lengths; (c) every "
-        "BoxedUint construction guarantees at least one limb")
+        "BoxedUint construction guarantees at least one limb; (d) c11.widenlate: no unsigned add / mul / shl computed in a narrow type "
+        "and widened afterwards; (e) c11.docpanic: every function documented to panic has a panic site that exists in release "
+        "builds (not only debug assertions or compiler overflow checks)")
 
 
 def run(tier, t0):
@@ -18,6 +20,7 @@ def run(tier, t0):
         capguard.run(f, rep, cfg, scope="all")
         c11c.run(f, rep, cfg)
         widenlate.run(f, rep, cfg)
+        docpanic.run(f, rep, cfg, lambda b: True, "c11.docpanic", counter="documented_panics_crate_wide")
     stale = {}
     for s in rep.stale:
         stale.setdefault(s["key"], set()).add(s["config"])
@@ -27,6 +30,7 @@ def run(tier, t0):
     rep.floor("boxed_uint_constructions", 6)
     rep.floor("caller_sized_copies", 1)
     rep.floor("narrow_arithmetic_sites", 600)
+    rep.floor("documented_panics_crate_wide", 60)
     return finish(rep, tier, t0,
                   explanation="interprocedural label-flow (with implicit flows and immediate-guard semantics) of every "
                               "explicit panic site to the arguments of every option/result-returning public operation, "
